@@ -4,9 +4,11 @@ Import ListNotations.
 Open Scope Z_scope.
 
 (* input : [1 cmd params [host path rawquery]]   mod_rewrite rule with one action
-           [2 cmd params reqhdr rsphdr]          mod_header action; hdr = [[key [values]] ...] sorted by key
+           [2 cmd params reqhdr rsphdr vars]     mod_header action; hdr = [[key [values]] ...] sorted by key;
+                                                 vars = [[name value] ...] values of the %variables the value uses
            [3 cmd params [host path rawquery]]   mod_redirect action
-   output: VErr 1 (configuration rejected) | [host path rawquery] | [reqhdr rsphdr] | [url] *)
+           [4 cmd params [host path rawquery] reqhdr]   bfe_basic/action.Action loaded from JSON and run with Do
+   output: VErr 1 (configuration rejected) | [host path rawquery] | [reqhdr rsphdr] | [url] | [[host path rawquery] reqhdr] *)
 Definition dec_url (v : val) : option url :=
   match v with VL [VB h; VB p; VB q] => Some (mkUrl h p q) | _ => None end.
 Definition enc_url (u : url) : val := VL [VB (u_host u); VB (u_path u); VB (u_query u)].
@@ -16,18 +18,27 @@ Definition dec_hdr (v : val) : option header :=
   match v with VL l => all_some (map dec_hkv l) | _ => None end.
 Definition enc_hdr (h : header) : val := VL (map (fun kv => VL [VB (fst kv); vLB (snd kv)]) h).
 
+Definition dec_var (v : val) : option (bytes * bytes) :=
+  match v with VL [VB n; VB x] => Some (n, x) | _ => None end.
+
 Inductive cinput :=
 | IRewrite (cmd : bytes) (params : list bytes) (u : url)
-| IHeader (cmd : bytes) (params : list bytes) (req rsp : header)
-| IRedirect (cmd : bytes) (params : list bytes) (u : url).
+| IHeader (cmd : bytes) (params : list bytes) (req rsp : header) (vars : list (bytes * bytes))
+| IRedirect (cmd : bytes) (params : list bytes) (u : url)
+| IDirect (cmd : bytes) (params : list bytes) (u : url) (h : header).
 Definition dec_in (v : val) : option cinput :=
   match v with
   | VL [VZ 1; VB c; ps; u] =>
     match as_LB ps, dec_url u with Some p, Some u' => Some (IRewrite c p u') | _, _ => None end
-  | VL [VZ 2; VB c; ps; rq; rs] =>
-    match as_LB ps, dec_hdr rq, dec_hdr rs with Some p, Some a, Some b => Some (IHeader c p a b) | _, _, _ => None end
+  | VL [VZ 2; VB c; ps; rq; rs; VL vs] =>
+    match as_LB ps, dec_hdr rq, dec_hdr rs, all_some (map dec_var vs) with
+    | Some p, Some a, Some b, Some vars => Some (IHeader c p a b vars)
+    | _, _, _, _ => None
+    end
   | VL [VZ 3; VB c; ps; u] =>
     match as_LB ps, dec_url u with Some p, Some u' => Some (IRedirect c p u') | _, _ => None end
+  | VL [VZ 4; VB c; ps; u; h] =>
+    match as_LB ps, dec_url u, dec_hdr h with Some p, Some u', Some h' => Some (IDirect c p u' h') | _, _, _ => None end
   | _ => None
   end.
 
@@ -35,12 +46,14 @@ Inductive coutput :=
 | ORejected
 | OUrl (u : url)
 | OHdrs (req rsp : header)
-| ORedirect (target : bytes).
+| ORedirect (target : bytes)
+| ODirect (u : url) (h : header).
 Definition model (i : cinput) : coutput :=
   match i with
   | IRewrite c p u => match rewrite_run c p u with Some u' => OUrl u' | None => ORejected end
-  | IHeader c p a b => match header_run c p a b with Some (a', b') => OHdrs a' b' | None => ORejected end
+  | IHeader c p a b vars => match header_run vars c p a b with Some (a', b') => OHdrs a' b' | None => ORejected end
   | IRedirect c p u => match redirect_run c p u with Some t => ORedirect t | None => ORejected end
+  | IDirect c p u h => match direct_run c p u h with Some (u', h') => ODirect u' h' | None => ORejected end
   end.
 Definition enc_out (o : coutput) : val :=
   match o with
@@ -48,6 +61,7 @@ Definition enc_out (o : coutput) : val :=
   | OUrl u => enc_url u
   | OHdrs a b => VL [enc_hdr a; enc_hdr b]
   | ORedirect t => VL [VB t]
+  | ODirect u h => VL [enc_url u; enc_hdr h]
   end.
 Definition dec_out (i : cinput) (v : val) : option coutput :=
   match v with
@@ -55,15 +69,21 @@ Definition dec_out (i : cinput) (v : val) : option coutput :=
   | _ =>
     match i with
     | IRewrite _ _ _ => match dec_url v with Some u => Some (OUrl u) | None => None end
-    | IHeader _ _ _ _ =>
+    | IHeader _ _ _ _ _ =>
       match v with
       | VL [a; b] => match dec_hdr a, dec_hdr b with Some a', Some b' => Some (OHdrs a' b') | _, _ => None end
       | _ => None
       end
     | IRedirect _ _ _ => match v with VL [VB t] => Some (ORedirect t) | _ => None end
+    | IDirect _ _ _ _ =>
+      match v with
+      | VL [a; b] => match dec_url a, dec_hdr b with Some u, Some h => Some (ODirect u h) | _, _ => None end
+      | _ => None
+      end
     end
   end.
 
+Definition wf_C49 (i : val) : bool := match dec_in i with Some _ => true | None => false end.
 Definition run_C49 (i : val) : val :=
   match dec_in i with Some ci => enc_out (model ci) | None => VErr 0 end.
 Definition agree_C49 (i o : val) : bool := val_eqb (run_C49 i) o.
@@ -79,8 +99,12 @@ Definition in_keys (keys : list bytes) (kv : bytes * bytes) : bool := mem (fst k
 Definition valid_rewrite_conf (cmd : bytes) (params : list bytes) : bool :=
   mem cmd doc_rewrite && forallb nonempty params
   && match assoc cmd action_check_table with Some ar => (ar =? -1) || (llen params =? ar) | None => true end.
+(* ... and a value whose %names are all documented-and-known variables *)
 Definition valid_header_conf (cmd : bytes) (params : list bytes) : bool :=
-  match assoc cmd doc_header with Some ar => (llen params =? ar) && forallb nonempty params | None => false end.
+  match assoc cmd doc_header with
+  | Some ar => (llen params =? ar) && forallb nonempty params && ((ar =? 1) || value_ok (nth 1 params []))
+  | None => false
+  end.
 Definition valid_redirect_conf (cmd : bytes) (params : list bytes) : bool :=
   mem cmd doc_redirect && (llen params =? 1)
   && (negb (bytes_eqb cmd s_SCHEME_SET) || mem (nth 0 params []) [s_http; s_https]).
@@ -120,18 +144,32 @@ Definition rw_effect (c : rwcmd) (params : list bytes) (u u' : url) : bool :=
 Definition rewrite_effect (cmd : bytes) (params : list bytes) (u u' : url) : bool :=
   match rw_cmd_of cmd with Some c => rw_effect c params u u' | None => true end.
 
-Definition header_effect (cmd : bytes) (params : list bytes) (req rsp req' rsp' : header) : bool :=
+(* effect of a header command c with (file) parameters params on the header h it addresses *)
+Definition hdr_effect (c : hcmd) (params : list bytes) (h h' : header) : bool :=
+  let k := canonical_key (nth 0 params []) in
+  let v := nth 1 params [] in
+  match c with
+  | HSet | HAdd | HDel =>
+    hdr_eqb (hdr_del k h') (hdr_del k h)                                             (* other fields untouched *)
+    && val_eqb (vLB (hdr_get k h'))
+               (vLB (match c with HSet => [v] | HAdd => hdr_get k h ++ [v] | _ => [] end))
+  | HRename | HModScheme => true             (* undocumented commands: modelled and tied, nothing claimed *)
+  end.
+(* SET / ADD write the value template with each %name replaced by that variable's value, "%%" by "%" *)
+Definition header_effect (vars : list (bytes * bytes)) (cmd : bytes) (params : list bytes) (req rsp req' rsp' : header) : bool :=
   match header_cmd cmd with
   | Some (is_req, c) =>
-    let k := canonical_key (nth 0 params []) in
-    let v := nth 1 params [] in
-    let h := if is_req then req else rsp in
-    let h' := if is_req then req' else rsp' in
     hdr_eqb (if is_req then rsp' else req') (if is_req then rsp else req)            (* the other side is untouched *)
-    && hdr_eqb (hdr_del k h') (hdr_del k h)                                          (* other fields untouched *)
-    && val_eqb (vLB (hdr_get k h'))
-               (vLB (match c with HSet => [v] | HAdd => hdr_get k h ++ [v] | HDel => [] end))
+    && hdr_effect c (header_params vars c params) (if is_req then req else rsp) (if is_req then req' else rsp')
   | None => true
+  end.
+(* bfe_basic/action run directly: header commands touch only the request header, all others only the URL *)
+Definition direct_effect (cmd : bytes) (params : list bytes) (u : url) (h : header) (u' : url) (h' : header) : bool :=
+  match header_cmd cmd with
+  | Some (true, HSet) => url_eqb u' u && hdr_effect HSet params h h'
+  | Some (true, HAdd) => url_eqb u' u && hdr_effect HAdd params h h'
+  | Some (true, HDel) => url_eqb u' u && hdr_effect HDel params h h'
+  | _ => hdr_eqb h' h && rewrite_effect cmd params u u'
   end.
 
 Definition redirect_effect (cmd : bytes) (params : list bytes) (u : url) (t : bytes) : bool :=
@@ -148,10 +186,12 @@ Definition spec (i : cinput) (o : coutput) : bool :=
   match i, o with
   | IRewrite c p u, ORejected => negb (valid_rewrite_conf c p)
   | IRewrite c p u, OUrl u' => rewrite_effect (to_upper c) p u u'
-  | IHeader c p a b, ORejected => negb (valid_header_conf c p)
-  | IHeader c p a b, OHdrs a' b' => header_effect c p a b a' b'
+  | IHeader c p a b vars, ORejected => negb (valid_header_conf c p)
+  | IHeader c p a b vars, OHdrs a' b' => header_effect vars c p a b a' b'
   | IRedirect c p u, ORejected => negb (valid_redirect_conf c p)
   | IRedirect c p u, ORedirect t => redirect_effect c p u t
+  | IDirect c p u h, ORejected => negb (valid_rewrite_conf c p)
+  | IDirect c p u h, ODirect u' h' => direct_effect (to_upper c) p u h u' h'
   | _, _ => false
   end.
 Definition prop_C49 (i o : val) : bool :=
